@@ -2,6 +2,7 @@
    evaluates model definitions. -/
 import PjrpcModel.Driver.SuiteMsg
 import PjrpcModel.Driver.SuiteDispatch
+import PjrpcModel.Driver.SuiteRegistry
 open Pjrpc.Driver
 
 def handle (line : String) : String :=
@@ -12,6 +13,7 @@ def handle (line : String) : String :=
       match (← str (← fld c "suite")) with
       | "msg" => suiteMsg c
       | "dispatch" => suiteDispatch c
+      | "registry" => suiteRegistry c
       | s => throw s!"unknown suite {s}"
     match r with
     | .ok j => j.compress
